@@ -73,6 +73,23 @@ def wide_project(r: random.Random, prefix: str) -> tuple[dict[str, str], list[st
 	cells = ', '.join(r.choice(pool) for _ in range(m))
 	deep = r.choice(["dict[str, list[Entry]]", "list[dict[str, list[Entry]]]", "dict[str, tuple[int, list[Entry]]]", "dict[str, list[Entry | None]]"])
 	lib = f'''from collections.abc import Callable
+from typing import Generic, TypeVar
+
+
+T = TypeVar('T')
+
+
+class Cell(Generic[T]):
+	v: T
+
+	def __init__(self, v: T) -> None:
+		self.v = v
+
+	def both(self) -> tuple[T, T]:
+		return (self.v, self.v)
+
+	def spread(self) -> dict[T, list[T]]:
+		return {{self.v: [self.v]}}
 
 
 class Item:
@@ -96,6 +113,18 @@ class Registry:
 	def visit(self, f: 'Callable[[list[Entry]], {deep}]') -> None:
 		pass
 
+	def held(self) -> 'Cell[Entry]':
+		return Cell(Entry())
+
+	def held_many(self) -> 'Cell[list[Entry]]':
+		return Cell([Entry()])
+
+	def late(self) -> 'Cell[Late]':
+		return Cell(Late())
+
+	def late_deep(self) -> 'Cell[Cell[Later]]':
+		return Cell(Cell(Later()))
+
 
 class Entry:
 	v: int
@@ -108,6 +137,21 @@ def wide({params}) -> tuple[{', '.join(ptypes)}]:
 	return ({', '.join(f'a{i}' for i in range(n))})
 
 
+class Late:
+	# referred to only through a generic class of this module, from a method further up
+	z: int
+
+	def __init__(self) -> None:
+		self.z = 0
+
+
+class Later:
+	z: int
+
+	def __init__(self) -> None:
+		self.z = 0
+
+
 class Row:
 	cells: tuple[{cells}]
 	many: int | str | float | bool | list[int] | dict[str, int] | Item | list[Item] | tuple[int, str] | list[str] | dict[str, str] | None
@@ -116,7 +160,7 @@ class Row:
 		self.cells = cells
 		self.many = None
 '''
-	main = f'''from {a} import table, names, pairs, nested, limit, Item, Row, Registry, wide
+	main = f'''from {a} import table, names, pairs, nested, limit, Item, Row, Registry, Cell, wide
 
 
 def use(row: Row) -> int:
@@ -128,6 +172,13 @@ def use(row: Row) -> int:
 	w = wide
 	reg = Registry()
 	found = reg.find('k')
+	cell = Cell(3)
+	p = cell.both()
+	q = cell.spread()
+	held = reg.held()
+	hv = held.v
+	scell = Cell('s')
+	sp = scell.both()
 	return limit + len(t) + len(n) + len(p) + len(d)
 '''
 	return {a: lib, b: main}, [a, b]
@@ -271,6 +322,18 @@ def shard(ctx: Ctx, acc: Acc) -> None:
 			# modules are checked leaves-last so that dependants are still in the table while a dependency is re-imported
 			for n2 in reversed(order):
 				check_module(acc, s, n2, dict(case, module=n2))
+			if shape == 'wide' and i % 2 == 1:
+				# the same modules again after an edit that keeps every tree path and changes what stands there
+				edited = {n2: src.replace('Entry', 'Record').replace('Item', 'Piece').replace('n: int', 'n: str').replace('self.n = 1', "self.n = 'p'") for n2, src in sources.items()}
+				for n2 in reversed(order):
+					s.unload(n2)
+				for n2, src in edited.items():
+					s.set_source(n2, src)
+				for n2 in order:
+					s.load(n2)
+				acc.see('project_shape', 'wide-after-edit')
+				for n2 in reversed(order):
+					check_module(acc, s, n2, dict(case, module=n2, sources=edited, edited=True))
 			for n2 in reversed(order):
 				s.unload(n2)
 				s.sources.pop(n2, None)
